@@ -434,9 +434,9 @@ def run_check(modname, tier, base_seed=None, jobs=None, runs=None):
         if failure is not None:
             raise HarnessError(f"worker failed: {failure}")
     extra = {}
-    if hasattr(mod, "finalize") and not any(v["violation"].get("class") == "hang" for v in viols):
-        # e.g. the compiled-kernel anchor: runs in the parent, after the pool (not when a run of the pool did not terminate:
-        # the anchor executes the same code)
+    if hasattr(mod, "finalize") and not viols:
+        # e.g. the compiled-kernel anchor: runs in the parent, after the pool.  It validates the simulator on a tree that
+        # passes; when the pool already found violations (or a run that did not terminate) those are what gets reported
         try:
             with wall_budget(float(os.environ.get("VERIF_ANCHOR_BUDGET", 900))):
                 extra = mod.finalize(tier, base_seed, stats, viols) or {}
